@@ -170,6 +170,8 @@ def judge(t, kw, v, text, rec, case, view):
     for sub, fields, detail in res:
         fields = dict(fields)
         detail = dict(detail)
+        if case.get("prev"):
+            fields["after"] = case["prev"][-1]["t"]
         detail["view"] = view
         detail["format"] = {"type": t, **kw}
         rec.violation(sub, fields, detail, case=case)
@@ -198,6 +200,17 @@ def run_doc(cases, rec, tag):
                     rec.count("values_written_as_int")
                 else:
                     t.write(r, c, v)
+                for pv in cs.get("prev", ()):
+                    # formats the cell had before: the cell is under the format it was given last
+                    pkw = dict(pv["kw"])
+                    docs._decode_format_kwargs(pkw)
+                    try:
+                        t.set_cell_formatting(r, c, pv["t"], **pkw)
+                        rec.count("earlier_formats_applied")
+                        if (i // 3) % 2:
+                            t.cell(r, c).formatted_value  # displayed under the earlier format first
+                    except Exception:  # noqa: BLE001
+                        rec.count("earlier_formats_refused")
                 t.set_cell_formatting(r, c, cs["t"], **kw)
             except Exception as e:  # noqa: BLE001
                 rec.violation("format_refused", {"fmt": cs["t"], "exc": type(e).__name__}, {"kw": cs["kw"], "v": cs["v"], "msg": str(e)[:200]}, case={"part": "pair", **cs})
@@ -263,7 +276,12 @@ def run_pairs(spec, rec):
         for _ in range(min(spec["per_doc"], n - made)):
             idx = spec["stream"] + spec["k"] * (made + len(batch))
             t, kw, v = rand_format(rng, currencies, idx)
-            batch.append({"t": t, "kw": kw, "v": repr(v)})
+            cs = {"t": t, "kw": kw, "v": repr(v)}
+            if rng.random() < .2:
+                cs["prev"] = [{"t": pt, "kw": pkw} for pt, pkw, _ in (rand_format(rng, currencies, idx + 7 * q + 1) for q in range(rng.choice([1, 1, 2])))]
+                rec.count("cases_with_earlier_formats")
+                rec.hist("earlier_format", cs["prev"][-1]["t"] + ">" + t)
+            batch.append(cs)
             rec.count("fmt:" + t)
             if t == "currency":
                 rec.hist("currency", kw["currency_code"])
@@ -373,7 +391,7 @@ def replay(case, rec):
     if case.get("part") == "two":
         return two_tables_case(case, rec)
     if case.get("part") == "pair":
-        run_doc([{"t": case["t"], "kw": case["kw"], "v": case["v"]}], rec, "replay")
+        run_doc([{"t": case["t"], "kw": case["kw"], "v": case["v"], **({"prev": case["prev"]} if case.get("prev") else {})}], rec, "replay")
         rec.case(("replay", str(case)))
     elif case.get("part") == "doc":
         run_doc(case["cases"], rec, "replay")
